@@ -146,9 +146,11 @@ def get_type_graph(t: type) -> graphlib.TopologicalSorter[TypeNode]:
             # We detected a cyclic type,
             #   wrap in a ForwardRef and don't add it to the stack
             #   This will terminate this edge to prevent infinite cycles.
-            if is_visited and can_be_cyclic and is_generic:
-                # A reference can't carry the parameters of a generic,
-                #   so we defer the annotation itself.
+            if is_visited and can_be_cyclic and (
+                is_generic or inspection.should_unwrap(child)
+            ):
+                # A reference can't carry the parameters of a generic (or a qualifier
+                #   such as `Final[...]`), so we defer the annotation itself.
                 node = TypeNode(child, unwrapped, var=var, cyclic=True)
             elif is_visited and can_be_cyclic:
                 qualname = inspection.qualname(child)
